@@ -14,3 +14,5 @@ import PytezosModel.Props.C03
 #print axioms C03.checkConstraints_duplicate_iff
 #print axioms C03.hashable_all
 #print axioms C03.cty_is_comparable
+#print axioms C03.text_bridge
+#print axioms C03.text_bridge_one_kind
